@@ -358,15 +358,19 @@ struct Node {
             } else if (n_undo) { /* toggles and strings: the statement is silent; accepted */ }
         }
     }
+    void size_loc(size_t want) { if (rec.locbuf.size() != want) { rec.locbuf.assign(want, 0); rec.loc = rec.locbuf.data(); rec.loc_size = rec.locbuf.size(); } }
+    int tight = -1;   // >= 0: the location buffer holds the address of each message plus this many spare bytes (an address that fits must be dispatched)
     void apply(const Incoming &in) {
         const Leaf &l = leaves()[in.leaf]; char buf[512];
         if (!build(buf, sizeof buf, l, in)) return;
+        size_loc((tight >= 0 && !in.may_refuse && in.sent_addr.empty()) ? l.addr.size() + 1 + (size_t)tight : 256);
         deliver(l, in.leaf, in, buf);
     }
     // a message produced by another party (undo history, automation): decode and deliver
     bool apply_raw(const char *msg) {
         auto &L = leaves();
         for (size_t i = 0; i < L.size(); i++) if (L[i].addr == msg) {
+            size_loc(tight >= 0 ? L[i].addr.size() + 1 + (size_t)tight : 256);
             Incoming in; in.leaf = (int)i; in.query = rtosc_narguments(msg) == 0 && !*rtosc_argument_string(msg);
             if (!in.query) {
                 in.tag = rtosc_type(msg, 0); rtosc_arg_t a = rtosc_argument(msg, 0);
